@@ -276,13 +276,28 @@ def node_learnt_late(walk_obs, k):
     return False
 
 
+def fired_faults(walk_obs, k):
+    """The injected faults that fired at or before observation k, in order: ["set@DeliverNode", ...]
+    (a Set call failed inside the node handler)."""
+    out = []
+    prev = {"setFailed": 0, "startFailedN": 0}
+    for j in range(k + 1):
+        for key, kind in (("setFailed", "set"), ("startFailedN", "start")):
+            cur = walk_obs[j].get(key) or 0
+            if cur > prev[key]:
+                out.append("%s@%s" % (kind, walk_obs[j]["op"]))
+            prev[key] = cur
+    return out
+
+
 def fault_origin(walk_obs, k):
-    """Which injected fault has fired before observation k, and in which handler it fired first
-    ("set@DeliverNode": a Set call failed inside the node handler)."""
-    for key, kind in (("setFailed", "set"), ("startFailedN", "start")):
-        if walk_obs[k].get(key):
-            first = next(j for j in range(k + 1) if walk_obs[j].get(key))
-            return "%s@%s" % (kind, walk_obs[first]["op"])
+    """The first Set failure that fired (its effects may be permanent), else the first failed
+    session start, else "none"."""
+    f = fired_faults(walk_obs, k)
+    for kind in ("set@", "start@"):
+        for x in f:
+            if x.startswith(kind):
+                return x
     return "none"
 
 
@@ -299,6 +314,15 @@ def signature(name, walk_obs, k, fm=()):
             and announced_view(o) == announced_view(o["fresh"])
         return "%s|diff=%s|old=%s" % (name, ",".join(sorted(fm)) or "none", "same-as-fresh" if same else "differs-from-fresh")
     if name.startswith("C05.") and fault_origin(walk_obs, k) != "none":
+        origin = fault_origin(walk_obs, k)
+        if name == "C05.SessionsExact" and "missing" in fm and \
+                all(x in ("set@DeliverSvc", "set@ResyncPass") for x in fired_faults(walk_obs, k)):
+            # every fault that fired is a Set failing inside a service handler; the handler has been retried successfully since
+            # (settled: no failed call is waiting), and still an announced service's route is not
+            # offered: the retry did not publish.  (The recorded error-path findings are about state
+            # changed before a failing Set that is never retried: stale routes after a failed delete /
+            # announce, empty sessions after a failed node / configuration handler.)
+            return "%s|retried-but-not-offered|fault=setretry@%s" % (name, origin.split("@")[1])
         kind = ""
         if name == "C05.ReportedPeers":
             up = {p for p, v in o["peers"].items() if v["up"]}
